@@ -112,6 +112,8 @@ impl Affine2 {
     /// Panics if `slice` is less than 6 elements long.
     #[inline]
     pub fn write_cols_to_slice(self, slice: &mut [f32]) {
+        // check the length once, before anything is written
+        let slice = &mut slice[..6];
         self.matrix2.write_cols_to_slice(&mut slice[0..4]);
         self.translation.write_to_slice(&mut slice[4..6]);
     }
